@@ -211,6 +211,99 @@ def free_mix(ctx, r):
         base.close()
 
 
+def init_races(ctx, r):
+    """`init` is one of the commands C02 quantifies over: on every layout of `.ergo/` (log and lock present or not, legacy name) it is
+    parked after each of its calls on the store's names (stat calls included: it looks, then acts) while a writer runs to completion,
+    and the other way round.  Whatever was acknowledged must be in effect afterwards: the items of the final store are those of a
+    twin on which only the writer ran (init adds and hides nothing), and the log is whole lines."""
+    calls = strace.CALLS + "," + strace.STAT_CALLS
+    def layout(name):
+        st = cmdrun.Store(ctx.ergo, ctx.go, legacy=(name == "legacy"))
+        if name in ("two-tasks", "legacy", "two-tasks, no lock"):
+            st.exec(["--json", "new", "task"], b'{"title":"kept 1"}')
+            st.exec(["--json", "new", "task"], b'{"title":"kept 2","state":"blocked"}')
+        if name in ("lock only", "bare"):
+            os.unlink(st.log_path())
+        if name in ("bare", "two-tasks, no lock"):
+            os.unlink(os.path.join(st.dir, "lock"))
+        return st
+    def view(st):
+        a = st.exec(["--json", "list", "--all"])
+        if a["exit"] != 0:
+            return ("list fails", a["exit"], a["stderr"].strip()[:200])
+        return sorted((i["kind"], i["title"], i["state"]) for i in json.loads(a["stdout"]))
+    writers = [("new-task", ["--json", "new", "task"], b'{"title":"acknowledged"}'),
+               ("plan", ["--json", "plan"], b'{"title":"P","tasks":[{"title":"p1"},{"title":"p2","after":["p1"]}]}'),
+               ("compact", ["--json", "compact"], None)]
+    for name in ("lock only", "bare", "two-tasks", "legacy", "two-tasks, no lock"):
+        base = layout(name)
+        try:
+            for wname, wargv, wstdin in writers:
+                twin = crash.clone(base)
+                try:
+                    tw = twin.exec(wargv, wstdin)
+                    want = view(twin)
+                finally:
+                    twin.close()
+                if tw["exit"] != 0:
+                    continue
+                for who in ("init parked", "writer parked"):
+                    solo = crash.clone(base)
+                    try:
+                        aargv = ["init", solo.root] if who == "init parked" else wargv
+                        _, _, _, steps = strace.run(solo, aargv, None if who == "init parked" else wstdin, calls=calls)
+                    finally:
+                        solo.close()
+                    if who == "init parked":
+                        # T3: init takes no lock, so its program must be harmless at every point of every other program: nothing written, truncated,
+                        # renamed or removed; a missing file created without O_TRUNC (Program.readerOK; C02_init_between_any_two_calls_changes_nothing)
+                        sh = strace.shape(ctx.model, steps)
+                        ctx.tie_tally("T3 init program (Program.readerOK)", " ".join(strace.summarize(steps)))
+                        if not sh["reader"]:
+                            ctx.tie_broken("T3 init program (%s)" % name, {"program": strace.summarize(steps),
+                                           "expected": "no lock, no write, no truncation: missing files created with O_CREAT and without O_TRUNC"})
+                    pts = strace.kill_points(steps)
+                    for pt in pts:
+                        c = crash.clone(base)
+                        pk = None
+                        try:
+                            aargv, astdin = (["init", c.root], None) if who == "init parked" else (wargv, wstdin)
+                            bargv, bstdin = (wargv, wstdin) if who == "init parked" else (["init", c.root], None)
+                            pk = sched.Parked(c, aargv, astdin, pt, calls=calls)
+                            if not pk.parked:
+                                pk.wait(5); pk = None
+                                continue
+                            at = (strace.summarize(pk.steps_at_park) or ["-"])[-1]
+                            rb = c.exec(bargv, bstdin, timeout=10)
+                            ra = pk.resume(); pk = None
+                            if ra.get("tracer_error") or ra["exit"] == -9:
+                                ctx.count(1, key=("skipped: tracer",)); continue
+                            ctx.count(1, key=("init-race", name, wname, who, at))
+                            rw, ri = (rb, ra) if who == "init parked" else (ra, rb)
+                            step = {"layout of .ergo/": name, "A (parked after %s)" % at: aargv[:1] + ["<dir>"] if who == "init parked" else aargv, "B (runs to completion meanwhile)": bargv[:1] + ["<dir>"] if who != "init parked" else bargv,
+                                    "writer_stdin": (wstdin or b"").decode(), "writer_exit": rw["exit"], "writer_stderr": rw["stderr"].strip()[:200], "init_exit": ri["exit"]}
+                            if rb.get("timeout"):
+                                ctx.violation("C02 command blocks (init ∥ %s)" % wname, "B did not return within 10 s", {"trace": [step]}); return
+                            busy = rw["exit"] == 1 and "lock busy" in rw["stderr"]
+                            got = view(c)
+                            lp = c.log_bytes()
+                            if lp and not lp.endswith(b"\n"):
+                                ctx.violation("C02 log does not end in a newline after init ∥ %s" % wname, "layout %s, %s after %s" % (name, who, at), {"trace": [step]}); return
+                            if rw["exit"] == 0 and got != want:
+                                ctx.violation("C02 acknowledged write lost: init ∥ %s (%s)" % (wname, name),
+                                              "%s after %s; the writer exited 0, afterwards the store shows %s instead of %s" % (who, at, json.dumps(got)[:300], json.dumps(want)[:300]), {"trace": [step]}); return
+                            if not busy and rw["exit"] != 0 and cmdrun.classify_stderr(rw["stderr"]) is None:
+                                ctx.violation("C02 writer fails beside init (%s, %s)" % (wname, name), "%s after %s: exit %s %s" % (who, at, rw["exit"], rw["stderr"].strip()[:200]), {"trace": [step]}); return
+                            if ri["exit"] != 0:
+                                ctx.violation("C02 init fails beside a writer (%s, %s)" % (wname, name), "%s after %s: exit %s %s" % (who, at, ri["exit"], ri["stderr"].strip()[:200]), {"trace": [step]}); return
+                        finally:
+                            if pk is not None:
+                                pk.kill()
+                            c.close()
+        finally:
+            base.close()
+
+
 def run(ctx):
     import os
     os.environ["GOGC"] = "1"      # stress the Go runtime: collections (and finalizers) inside every lock section
@@ -266,6 +359,7 @@ def run(ctx):
                                "expected": "open- stat- creat open+ flock+ unlock (LockFile.next)"})
     finally:
         st.close()
+    init_races(ctx, gen.Rng(ctx.seed * 1000003 + 202))
     r = gen.Rng(ctx.seed * 1000003 + 2)
     for i in range(7 if ctx.quick else 150):
         parked_pairs(ctx, r.fork(), big=(400 if i % 3 == 1 else 0))
